@@ -33,7 +33,11 @@ Record iout := { io_res : option N;      (* 0 idle 1 nothing-to-submit 2 getPend
                  io_h : option mark;     (* header watermark (in memory, persisted) after the item *)
                  io_d : option mark }.
 
-Record ocase := { oc_cfg : cfg; oc_init : N; oc_hist : list item; oc_outs : list iout;
+(* heights in run-length form: [(a, n); ...] = a, a+1, .., a+n-1, ...  (a call after a long DA outage or an idle
+   stretch carries hundreds of consecutive heights; the case files write them as runs) *)
+Definition runs (l : list (N * N)) : list N := flat_map (fun p => seqN (fst p) (N.to_nat (snd p))) l.
+
+Record ocase := { oc_cfg : cfg; oc_init : N; oc_hist : list hitem; oc_outs : list iout;
                   oc_hacc : list N; oc_dacc : list N;     (* accepted heights, oldest first *)
                   oc_height : N }.
 
@@ -55,7 +59,7 @@ Definition opt_ok {A} (e : A -> A -> bool) (obs : option A) (m : A) : bool :=
   match obs with None => true | Some x => e x m end.
 
 (* codes: 1 result, 2 elapsed time, 3 DA calls, 4 watermarks *)
-Definition check_item (c : cfg) (s : state) (i : item) (o : iout) : state * list N :=
+Definition check_single (c : cfg) (s : state) (i : item) (o : iout) : state * list N :=
   let '(s', (r, el)) := step c s i in
   let is_tick := match i with ITick _ _ => true | _ => false end in
   let cs := match item_kind i with Some k => new_calls k s s' | None => [] end in
@@ -64,7 +68,18 @@ Definition check_item (c : cfg) (s : state) (i : item) (o : iout) : state * list
        (if list_eqb ocall_eqb cs (io_calls o) then [] else [3]) ++
        (if opt_ok mark_eqb (io_h o) (side_mark (s_h s')) && opt_ok mark_eqb (io_d o) (side_mark (s_d s')) then [] else [4])).
 
-Fixpoint check_items (c : cfg) (s : state) (h : list item) (os : list iout) : state * list N :=
+(* a run-length item is expanded here (Model.Submitter.expand) and the model runs the n single items; the
+   observation is taken after the last of them: no DA call, both watermarks *)
+Definition check_item (c : cfg) (s : state) (hi : hitem) (o : iout) : state * list N :=
+  match hi with
+  | HI i => check_single c s i o
+  | HPublishN _ _ =>
+      let s' := run_from c s (expand hi) in
+      (s', (match io_calls o with [] => [] | _ => [3] end) ++
+           (if opt_ok mark_eqb (io_h o) (side_mark (s_h s')) && opt_ok mark_eqb (io_d o) (side_mark (s_d s')) then [] else [4]))
+  end.
+
+Fixpoint check_items (c : cfg) (s : state) (h : list hitem) (os : list iout) : state * list N :=
   match h, os with
   | i :: h', o :: os' => let '(s', e) := check_item c s i o in
                          let '(s'', e') := check_items c s' h' os' in (s'', e ++ e')
